@@ -270,6 +270,9 @@ func zero(t types.Type) value {
 // slice returns x[lo:hi:max].  Any of lo, hi and max may be nil.
 func slice(x, lo, hi, max value) value {
 	var Len, Cap int
+	if l, ok := x.(lazyStr); ok {
+		x = l.force()
+	}
 	switch x := x.(type) {
 	case sstr:
 		Len = len(x.b)
@@ -341,10 +344,12 @@ func binop(op token.Token, t types.Type, x, y value) value {
 	if isSym(x) || isSym(y) {
 		return symBinop(op, t, x, y)
 	}
-	if _, ok := x.(sstr); ok {
+	switch x.(type) {
+	case sstr, lazyStr:
 		return symStrBinop(op, x, y)
 	}
-	if _, ok := y.(sstr); ok {
+	switch y.(type) {
+	case sstr, lazyStr:
 		return symStrBinop(op, x, y)
 	}
 	switch op {
@@ -1056,6 +1061,8 @@ func callBuiltin(caller *frame, callpos token.Pos, fn *ssa.Builtin, args []value
 			return len(x)
 		case sstr:
 			return len(x.b)
+		case lazyStr:
+			return x.lazyLen()
 		case array:
 			return len(x)
 		case *value:
@@ -1158,6 +1165,8 @@ func rangeIter(x value, t types.Type) iter {
 		return &stringIter{Reader: strings.NewReader(x)}
 	case sstr:
 		return &sstrIter{s: x}
+	case lazyStr:
+		return &stringIter{Reader: strings.NewReader(x.force().(string))}
 	}
 	panic(fmt.Sprintf("cannot range over %T", x))
 }
@@ -1240,6 +1249,12 @@ func conv(t_dst, t_src types.Type, x value) value {
 			return symConv(bd.Kind(), sx)
 		}
 		panic(inconclusive{fmt.Sprintf("conversion of symbolic %v to %s", sx.K, t_dst)})
+	}
+	if l, ok := x.(lazyStr); ok {
+		if bd, ok := ut_dst.(*types.Basic); ok && bd.Kind() == types.String {
+			return l
+		}
+		x = l.force()
 	}
 	if sx, ok := x.(sstr); ok {
 		switch ut_dst := ut_dst.(type) {
